@@ -479,6 +479,7 @@ func checkC20(p *Prog, res *Result, tier string) {
 	res.rule("C20-R7", "no request can wedge the node by making a goroutine wait for a lock it holds itself (C19-R5)", 1)
 	res.rule("C20-R8", "every position used with the backing array of a ring buffer (element index, slice bound) is the result of the ring's wrap function (x % capacity): a watch request cannot make the event cache index out of range", 8)
 	res.rule("C20-R9", "a metric collector is registered (MustRegister panics on duplicates) only on the miss edge of a registry lookup made under the registry's write lock", 3)
+	res.rule("C20-R10", "no nil element in a repeated message field of an answer: an element produced by a nil-for-nil converter is stored only where its argument was tested non-nil (or is an element of the backend's list)", 3)
 	res.rule("C20-R6", "label values reach the prometheus client only through a UTF-8 sanitiser: request bytes used as a label value (a watched prefix) cannot make With() panic", 1)
 	res.rule("C20-R5", "no allocation is sized by an integer taken from a request (limit, revision, lease ...) without an upper bound: make() with such a size can exceed memory or panic outright", 3)
 	res.rule("C20-R4", "constant-index accesses to request-derived slices in the etcd request layer are dominated by a matching length test", 5)
@@ -671,6 +672,7 @@ func checkC20(p *Prog, res *Result, tier string) {
 	checkLabelValueSanitised(p, res)
 	checkRingIndexing(p, res)
 	checkRegisterOnce(p, res, "C20-R9")
+	checkNoNilMessageElement(p, res, "C20-R10")
 	checkStreamResponsesComplete(p, res, "C20-R2")
 	// R7: self-deadlock (C19-R5)
 	checkSelfDeadlock(p, p.lockContext(), res, "C20-R7")
@@ -1727,5 +1729,86 @@ func checkRegisterOnce(p *Prog, res *Result, rule string) {
 				res.bad(rule, construct, p.pos(call.Pos()), "the test that guards MustRegister is not on a registry lookup made under the write lock (a value read before Lock() is stale): two goroutines emitting a metric name for the first time both miss, both register, and the second MustRegister panics - there is no recovery in the request path, the node dies")
 			}
 		}
+	}
+}
+
+// checkNoNilMessageElement: the gRPC encoder dereferences every element of a repeated message field; a nil element
+// panics inside the server's send, which nothing recovers. Every element that the etcd translation layer puts into a
+// slice of message pointers and that comes from a converter of the repository which answers nil for nil is put there
+// on a path where the converted value was found non-nil (or is an element of a range over a slice, which the backend
+// never fills with nil: those converters are called per element of a response's list).
+func checkNoNilMessageElement(p *Prog, res *Result, rule string) {
+	ep := p.ssaPkg("pkg/server/etcd")
+	mayReturnNil := func(f *ssa.Function) bool {
+		if f == nil || f.Blocks == nil || f.Pkg == nil || !strings.HasPrefix(f.Pkg.Pkg.Path(), modPath) {
+			return false
+		}
+		for _, b := range f.Blocks {
+			if ret, ok := b.Instrs[len(b.Instrs)-1].(*ssa.Return); ok && len(ret.Results) == 1 && isNilConst(resolve(ret.Results[0])) {
+				return true
+			}
+		}
+		return false
+	}
+	n := 0
+	var fs []*ssa.Function
+	for _, f := range p.AllFuncs {
+		if f.Pkg == ep && f.Blocks != nil && f.Synthetic == "" {
+			fs = append(fs, f)
+		}
+	}
+	sort.Slice(fs, func(i, j int) bool { return funcName(fs[i]) < funcName(fs[j]) })
+	for _, f := range fs {
+		k := 0
+		for _, b := range f.Blocks {
+			for _, ins := range b.Instrs {
+				st, ok := ins.(*ssa.Store)
+				if !ok {
+					continue
+				}
+				ia, ok := st.Addr.(*ssa.IndexAddr)
+				if !ok {
+					continue
+				}
+				pt, ok := st.Val.Type().Underlying().(*types.Pointer)
+				if !ok {
+					continue
+				}
+				if _, isStruct := pt.Elem().Underlying().(*types.Struct); !isStruct {
+					continue
+				}
+				call, ok := resolve(st.Val).(*ssa.Call)
+				if !ok || !mayReturnNil(call.Common().StaticCallee()) || len(call.Common().Args) == 0 {
+					continue
+				}
+				_ = ia
+				k++
+				n++
+				construct := fmt.Sprintf("%s: converted element #%d of a repeated message field is not nil", funcName(f), k)
+				arg := resolve(call.Common().Args[0])
+				guarded := false
+				for _, cf := range dominatingFacts(b) {
+					if cf.X != nil && isNilConst(cf.Y) && ((cf.Op == token.NEQ && cf.Want) || (cf.Op == token.EQL && !cf.Want)) {
+						if (pureKey(resolve(cf.X)) == pureKey(arg) && pureKey(arg) != "") || (accessPath(resolve(cf.X)) == accessPath(arg) && accessPath(arg) != "") {
+							guarded = true
+						}
+					}
+				}
+				// an element of a list that is being ranged over
+				if ld, ok := arg.(*ssa.UnOp); ok && ld.Op == token.MUL {
+					if _, ok := ld.X.(*ssa.IndexAddr); ok {
+						guarded = true
+					}
+				}
+				if guarded {
+					res.ok(rule, construct, p.pos(st.Pos()), "the converted value was tested non-nil, or is an element of the backend's own list")
+				} else {
+					res.bad(rule, construct, p.pos(st.Pos()), "a converter that answers nil for nil fills an element of a repeated message field without its argument having been tested: for a request that makes the backend answer without a key-value (a guarded update of a key that does not exist) the answer carries a nil element, and the gRPC encoder's nil dereference takes the node down")
+				}
+			}
+		}
+	}
+	if n == 0 {
+		res.und(rule, "etcd translation: converted elements", "-", "none found")
 	}
 }
